@@ -69,7 +69,15 @@ var (
 	residueKey = []byte{0xFE, 'r', 'e', 's'}
 	callAmts   = []int64{1, 2, 3}
 	syms       = []string{"AAA", "BBB", "CCC"}
-	holders    = []string{"worker", "rev0", "rev1", "rA", "rB", "sender"}
+	holders    = []string{"worker", "rev0", "rev1", "rA", "rB", "sender", "inv0", "inv1", "under", "jump", "loop"}
+	// callees that fail with a VM error other than REVERT (failure point = name of the callee)
+	vmFail = map[string]string{
+		"inv0":  "fe",           // INVALID at once
+		"inv1":  "6001600155fe", // PUSH1 1 PUSH1 1 SSTORE INVALID
+		"under": "50",           // POP on an empty stack
+		"jump":  "60ff56",       // PUSH1 0xff JUMP: not a JUMPDEST
+		"loop":  "5b600056",     // JUMPDEST PUSH1 0 JUMP: burns the whole gas limit inside the callee
+	}
 )
 
 type Consts struct {
@@ -147,6 +155,9 @@ func New(t *testing.T, c Consts) *Adapter {
 	a.addr["rA"] = common.HexToAddress(world.DetExt("c18/refund/A")) // holds nothing
 	a.addr["rB"] = common.HexToAddress(world.DetExt("c18/refund/B")) // holds 10 of each token of its own
 	a.addr["sender"] = common.HexToAddress(world.DetExt("c18/callsender"))
+	for name, code := range vmFail {
+		a.addr[name] = a.I.Deploy(ctx, common.FromHex(code))
+	}
 	// bridge tokens A, B, C: coins registered by governance (alias = bridge denom) + observed MsgBridgeTokenClaim
 	for i, s := range syms {
 		tc := world.DetExt("c18/token/" + s)
@@ -285,14 +296,13 @@ func (a *Adapter) setCallGas(ctx sdk.Context, limit uint64) sdk.Context {
 	p := a.K.GetParams(ctx)
 	p.BridgeCallMaxGasLimit = limit
 	must(a.W.Handle(ctx, &types.MsgUpdateParams{ChainName: chain, Authority: world.GovAddr(), Params: p}))
-	// keeper.CallEVM replaces the limit by the block's maximum gas whenever the consensus parameters carry one
+	// keeper.CallEVM replaces every limit by the block's maximum gas whenever the consensus parameters carry one
+	// (that would also starve the ERC-20 mint calls of the conversion): the step runs under consensus parameters
+	// without a block gas limit (max_gas = -1), where the module's BridgeCallMaxGasLimit bounds the callee alone
 	cp := ctx.ConsensusParams()
-	if os.Getenv("VERIF_DEBUG") == "2" {
-		fmt.Printf("DEBUG consensus block params %v\n", cp.Block)
-	}
 	if cp.Block != nil && cp.Block.MaxGas > 0 {
 		blk := *cp.Block
-		blk.MaxGas = int64(limit)
+		blk.MaxGas = -1
 		ncp := cp
 		ncp.Block = &blk
 		return ctx.WithConsensusParams(ncp)
@@ -347,6 +357,8 @@ func (a *Adapter) runCall(ctx sdk.Context, fp, rf string, designated bool) strin
 		target = "rev0"
 	case fp == "revert1":
 		target = "rev1"
+	case vmFail[fp] != "":
+		target = fp
 	case fp == "sct0": // "send call to" memo: the tokens go to the sender, who calls the target himself
 		target, memo = "rev0", hex.EncodeToString(types.MemoSendCallTo.Bytes())
 	case fp == "sct1":
@@ -746,8 +758,10 @@ func (a *Adapter) Project(ctx sdk.Context) any {
 		}
 	}
 	rslot := int64(0)
-	if w.App.EvmKeeper.GetState(ctx, a.addr["rev1"], common.BigToHash(big.NewInt(1))) != (common.Hash{}) {
-		rslot = 1
+	for _, c := range []string{"rev1", "inv1"} {
+		if w.App.EvmKeeper.GetState(ctx, a.addr[c], common.BigToHash(big.NewInt(1))) != (common.Hash{}) {
+			rslot++
+		}
 	}
 	pstat := make([]string, n)
 	for i := range pstat {
